@@ -105,7 +105,7 @@ def purity(target, allow_globals=()):
     return out
 
 
-def seed_threading(target, cls_for_self=None, extra_ok=()):
+def seed_threading(target, cls_for_self=None, extra_ok=(), seeded_callables=("partition_fn",)):
     """Every call inside the function to a callee that has a `seed`
     parameter passes a seed (not the constant None); there is no direct use of
     the global `random` module, numpy.random, or get_rng() without argument."""
@@ -117,6 +117,7 @@ def seed_threading(target, cls_for_self=None, extra_ok=()):
     for n in ast.walk(fn):
         if not isinstance(n, ast.Call):
             continue
+        forwarded = False
         f = n.func
         text = ast.unparse(f)
         # direct global RNG use
@@ -134,8 +135,29 @@ def seed_threading(target, cls_for_self=None, extra_ok=()):
             from cotengra.core import ContractionTree
 
             callee = getattr(ContractionTree, f.attr, None)
+        if callee is None and isinstance(f, ast.Attribute) and f.attr in seeded_callables:
+            # a callable parameter documented to take a seed (e.g. partition_fn)
+            checked += 1
+            kws = {kw.arg for kw in n.keywords}
+            if "seed" not in kws:
+                unthreaded.append(f"line {n.lineno}: {text}(...) is given no seed")
+            continue
         if callee is None:
             continue
+        # thin forwarders:  def f(tree, *args, **kwargs): return tree.meth(*args, **kwargs)
+        try:
+            cfn = fn_ast(callee) if isinstance(callee, types.FunctionType) else None
+        except (OSError, TypeError):
+            cfn = None
+        if cfn is not None and cfn.args.kwarg is not None and len(cfn.body) >= 1 and isinstance(cfn.body[-1], ast.Return):
+            rv = cfn.body[-1].value
+            if isinstance(rv, ast.Call) and isinstance(rv.func, ast.Attribute) and isinstance(rv.func.value, ast.Name) and cfn.args.args and rv.func.value.id == cfn.args.args[0].arg:
+                from cotengra.core import ContractionTree
+
+                fwd = getattr(ContractionTree, rv.func.attr, None)
+                if fwd is not None:
+                    callee = fwd
+                    forwarded = True
         if isinstance(callee, type):
             try:
                 sig = inspect.signature(callee.__init__)
@@ -164,7 +186,17 @@ def seed_threading(target, cls_for_self=None, extra_ok=()):
             if kw.arg == "seed":
                 passed = kw.value
             if kw.arg is None:
-                passed = passed or kw.value  # **opts may carry it: cannot tell -> accept
+                # **opts: look for the dict display(s) in this function that
+                # build those options (string keys that are callee parameters)
+                carries = None
+                for d in ast.walk(fn):
+                    if isinstance(d, ast.Dict) and d.keys and all(isinstance(k, ast.Constant) and isinstance(k.value, str) for k in d.keys):
+                        ks = [k.value for k in d.keys]
+                        if sum(k in sig.parameters for k in ks) >= 2:
+                            carries = ("seed" in ks) if carries is None else (carries and "seed" in ks)
+                if carries is False:
+                    unthreaded.append(f"line {n.lineno}: {text}(**opts) where the options dict has no 'seed' entry")
+                passed = passed or kw.value
         if passed is None and len(n.args) > pos and not any(isinstance(a, ast.Starred) for a in n.args):
             passed = n.args[pos]
         if passed is None:
